@@ -59,6 +59,10 @@ def enumerate_cases(tier, shard, nshards, seed):
         if j % nshards == shard:
             yield {'src': src, 'rsel': seed + j}
 
+    for j, src in enumerate(gen.saturated_programs()):
+        if j % nshards == shard:
+            yield {'src': src, 'rsel': seed + j}
+
     mods = gen.snippet_modules()
 
     for j in range(shard, len(mods), nshards * (8 if tier == 'quick' else 1)):
